@@ -16,7 +16,9 @@ CHECKS = {
              'overlap routing, slice reversal, subset composition - proved for reference definitions and bridged by theorem to Lean code '
              'regenerated from the current Python on every run; N-dimensional tuple subscripts with an Ellipsis (verify_subscript): one '
              'item per axis, placement of the items, refusal exactly for two Ellipses or too many items, per-axis agreement with numpy, '
-             'flat offsets of the N-d read equal numpy\'s selection in order, result size, no offset outside the stored array (hand '
+             'flat offsets of the N-d read equal numpy\'s selection in order, result size, no offset outside the stored array; '
+             'completeness of the subscript gate: verify_slice / verify_subscript (Spec and the regenerated Python) accept exactly the '
+             'declaratively supported set - non-zero step, bounds in [-n, n], non-empty numpy selection - and raise otherwise (hand '
              'model, tied by correspondence with verify_subscript, NumpyArraySegment reads and numpy); the composition inside the '
              'segment classes is tied by a numpy oracle over random segment trees and readers.',
         design='DESIGN.md 3.1, 6/C01',
